@@ -20,8 +20,8 @@ Fixpoint qset (k v : string) (q : query) : query :=
   end.
 
 (* fmt.Sprintf("%d", _) *)
-Definition print_int (z : Z) : string := NilEmpty.string_of_int (Z.to_int z).
 Definition print_uint (n : N) : string := NilEmpty.string_of_uint (N.to_uint n).
+Definition print_int (z : Z) : string := if z <? 0 then String "-" (print_uint (Z.to_N (- z))) else print_uint (Z.to_N z).
 
 Definition parse_digits (s : string) : option N :=
   match s with
@@ -99,6 +99,37 @@ Definition add_ns (t : Z * N) (d : Z) : Z * N :=
   let total := fst t * 1000000000 + Z.of_N (snd t) + d in
   (total / 1000000000, Z.to_N (total mod 1000000000)).
 
+(* the pieces of FromQuery, in the order of the code *)
+Definition allocs_of_query (orc : oracle) (old : list tok) (av : string) : list tok :=
+  if String.eqb av "" then old else map TOk (filter (peer_dec orc) (split_on comma av)).   (* StringsToPeers skips what does not parse *)
+
+Definition expire_of_query (orc : oracle) (now : Z * N) (old : time) (ev iv : string) : result time :=
+  if negb (String.eqb ev "") then
+    match time_dec orc ev with Some t => Ok (mk_time (fst t) (snd t)) | None => Err end
+  else if negb (String.eqb iv "") then
+    match dur_dec orc iv with
+    | Some d => if d <? 1000000000 then Err else Ok (mk_time (fst (add_ns now d)) (snd (add_ns now d)))
+    | None => Err end
+  else Ok old.
+
+Definition meta_pick (q : query) (kv : string * string) : list (string * string) :=
+  match strip_prefix meta_prefix (fst kv) with
+  | Some mk => if String.eqb mk "" then [] else [(mk, qget (fst kv) q)]
+  | None => [] end.
+(* for k := range q ...: the resulting map, in its canonical (key-sorted) representation *)
+Definition meta_of_query (q : query) : list (string * string) := ksort (flat_map (meta_pick q) q).
+
+Definition update_of_query (orc : oracle) (old : cid) (uv : string) : result cid :=
+  if String.eqb uv "" then Ok old else if cid_dec orc uv then Ok (Some uv) else Err.
+
+Definition origins_of_query (orc : oracle) (old : list string) (ov : string) : result (list string) :=
+  if String.eqb ov "" then Ok old
+  else if forallb (fun s => match addr_dec orc s with Some true => true | _ => false end) (split_on comma ov)
+       then Ok (split_on comma ov) else Err.
+
+Definition shard_of_query (old : N) (sv : string) : result N :=
+  if String.eqb sv "" then Ok old else match parse_uint64 sv with Some n => Ok n | None => Err end.
+
 (* PinOptions.FromQuery on the receiver value [old], at clock reading [now] *)
 Definition from_query (orc : oracle) (now : Z * N) (old : opts) (q0 : query) : result opts :=
   let nm := qget "name" q0 in
@@ -107,29 +138,12 @@ Definition from_query (orc : oracle) (now : Z * N) (old : opts) (q0 : query) : r
   let q := if String.eqb rpl "" then q0 else qset "replication-max" rpl (qset "replication-min" rpl q0) in
   match parse_int_param q "replication-min" (rmin old) with Err => Err | Ok rmn =>
   match parse_int_param q "replication-max" (rmax old) with Err => Err | Ok rmx =>
-  let sv := qget "shard-size" q in
-  match (if String.eqb sv "" then Ok (shard_size old) else match parse_uint64 sv with Some n => Ok n | None => Err end) with Err => Err | Ok sh =>
-  let av := qget "user-allocations" q in
-  let ua := if String.eqb av "" then user_allocs old else map TOk (filter (peer_dec orc) (split_on comma av)) in
-  let ev := qget "expire-at" q in
-  let iv := qget "expire-in" q in
-  match (if negb (String.eqb ev "") then
-           match time_dec orc ev with Some t => Ok (mk_time (fst t) (snd t)) | None => Err end
-         else if negb (String.eqb iv "") then
-           match dur_dec orc iv with
-           | Some d => if d <? 1000000000 then Err else let t := add_ns now d in Ok (mk_time (fst t) (snd t))
-           | None => Err end
-         else Ok (expire old)) with Err => Err | Ok ex =>
-  let meta := ksort (flat_map (fun kv => match strip_prefix meta_prefix (fst kv) with
-                                         | Some mk => if String.eqb mk "" then [] else [(mk, qget (fst kv) q)]
-                                         | None => [] end) q) in
-  let uv := qget "pin-update" q in
-  match (if String.eqb uv "" then Ok (pin_update old) else if cid_dec orc uv then Ok (Some uv) else Err) with Err => Err | Ok upd =>
-  let ov := qget "origins" q in
-  match (if String.eqb ov "" then Ok (origins old)
-         else let pieces := split_on comma ov in
-              if forallb (fun s => match addr_dec orc s with Some true => true | _ => false end) pieces then Ok pieces else Err)
-  with Err => Err | Ok og =>
+  match shard_of_query (shard_size old) (qget "shard-size" q) with Err => Err | Ok sh =>
+  let ua := allocs_of_query orc (user_allocs old) (qget "user-allocations" q) in
+  match expire_of_query orc now (expire old) (qget "expire-at" q) (qget "expire-in" q) with Err => Err | Ok ex =>
+  let meta := meta_of_query q in
+  match update_of_query orc (pin_update old) (qget "pin-update" q) with Err => Err | Ok upd =>
+  match origins_of_query orc (origins old) (qget "origins" q) with Err => Err | Ok og =>
   Ok (mk_opts rmn rmx nm md sh ua ex meta upd og)
   end end end end end end.
 
@@ -137,13 +151,6 @@ Definition from_query (orc : oracle) (now : Z * N) (old : opts) (q0 : query) : r
 Definition lossy_q (o : opts) : opts :=
   mk_opts (rmin o) (rmax o) (name o) (mode o) (shard_size o) (user_allocs o) (expire o)
           (filter (fun kv => negb (String.eqb (fst kv) "")) (metadata o)) (pin_update o) (origins o).
-
-(* keys strictly increasing: the canonical representation of a Go map *)
-Fixpoint keys_sorted {V} (m : list (string * V)) : bool :=
-  match m with
-  | a :: ((b :: _) as r) => String.ltb (fst a) (fst b) && keys_sorted r
-  | _ => true
-  end.
 
 Definition plain_text (s : string) : bool := negb (String.eqb s "") && negb (has_char comma s).
 
